@@ -161,8 +161,11 @@ def atom_key(nd):
     return repr(nd.identifier)
 
 
-def oracle(lf, dag, cnf, max_atoms=12):
-    """Returns list of problems (strings)."""
+def oracle(lf, dag, cnf, max_atoms=12, max_flip=10, seconds=6.0):
+    """Returns list of problems (strings). The enumeration of atom assignments stops after `seconds` (cost cap: the
+    work per assignment is exponential in the number of compound nodes up to `max_flip`)."""
+    import time as _time
+    t_start = _time.time()
     probs = []
     atoms_lf = {atom_key(nd): i + 1 for i, nd in enumerate(lf._nodes) if type(nd).__name__ == "atom"}
     atoms_dag = {atom_key(nd): i + 1 for i, nd in enumerate(dag._nodes) if type(nd).__name__ == "atom"}
@@ -179,6 +182,8 @@ def oracle(lf, dag, cnf, max_atoms=12):
     node_clauses = clauses[:len(clauses) - sum(len(c.as_clauses()) for c in cnf.constraints())] if cnf.constraints() else clauses
     ev_lookup = getattr(lf, "lookup_evidence", None)
     for bits in itertools.product([False, True], repeat=len(keys)):
+        if _time.time() - t_start > seconds:
+            break
         a = dict(zip(keys, bits))
         asg_lf = {atoms_lf[k]: v for k, v in a.items() if k in atoms_lf}
         asg_dag = {atoms_dag[k]: v for k, v in a.items() if k in atoms_dag}
@@ -209,7 +214,7 @@ def oracle(lf, dag, cnf, max_atoms=12):
                 probs.append("CNF clause %s false under the DAG valuation for %s" % (cl, a))
                 return probs
         # ... and the only one extending the atom assignment
-        if ncomp <= 10:
+        if ncomp <= max_flip:
             for flips in itertools.product([False, True], repeat=ncomp):
                 if not any(flips):
                     continue
@@ -339,7 +344,7 @@ def run(ctx):
         lines.append("CLARK %s" % s_dag)
         cl = sorted(tuple(sorted(c)) for c in cnf._contents()[1])
         meta.append(("CLARK", src, s_dag, (cnf.atomcount, cl)))
-        probs = oracle(lf, dag, cnf, max_atoms=ctx.budget(9, 13))
+        probs = oracle(lf, dag, cnf, max_atoms=ctx.budget(9, 13), max_flip=ctx.budget(8, 10), seconds=ctx.budget(4.0, 20.0))
         if probs is None:
             ctx.count("oracle-skipped(too many atoms)")
         elif probs and first_problem is None:
